@@ -406,9 +406,14 @@ class Interp:
                 if td.clike:
                     return EnumC(td.name, td.disc[variant])
                 return Adt(td.name, variant, [])
-            f = self.p.funcs.get('const ' + t)
-            if f is not None:
-                return self.run(f, [])
+            parts = t.split('::')
+            for k in range(len(parts)):
+                f = self.p.funcs.get('const ' + '::'.join(parts[k:]))
+                if f is not None:
+                    return self.run(f, [])
+                c = self.p.simple_consts.get('::'.join(parts[k:]))
+                if c is not None:
+                    return self.const(c, fn)
         raise Unsupported('const ' + t)
 
     def operand(self, frame, op, fn):
